@@ -106,7 +106,7 @@ static bool probe(en::Node& /*b*/, const en::PeerId& bid, Peer& c, const en::Chu
     pr::Message req{}; req.version = pr::kCurrentMessageVersion; req.type = pr::MessageType::Request;
     pr::RequestPayload rp{}; rp.chunk_id = held; rp.requester = c.id; req.payload = rp;
     if (!send_msg(c, bid, req)) return false;
-    const auto reply = wait_for(c, 4000, [&](const pr::Message& m) { return m.type == pr::MessageType::Chunk; });
+    const auto reply = wait_for(c, 20000, [&](const pr::Message& m) { return m.type == pr::MessageType::Chunk; });
     if (!reply) return false;
     pr::Message ack{}; ack.version = pr::kCurrentMessageVersion; ack.type = pr::MessageType::Acknowledge;
     pr::AcknowledgePayload ap{}; ap.chunk_id = held; ap.peer_id = c.id; ap.accepted = true; ack.payload = ap;
@@ -192,7 +192,7 @@ int main() {
             pr::Message ch{}; ch.version = pr::kCurrentMessageVersion; ch.type = pr::MessageType::Chunk;
             pr::ChunkPayload cp{}; cp.chunk_id = cid; cp.data = ct; cp.ttl = std::chrono::seconds(300); ch.payload = cp;
             send_msg(*A, bid, ch);
-            const auto ack = wait_for(*A, 4000, [&](const pr::Message& x) { return x.type == pr::MessageType::Acknowledge; });
+            const auto ack = wait_for(*A, 20000, [&](const pr::Message& x) { return x.type == pr::MessageType::Acknowledge; });
             out.put(ack ? (std::get<pr::AcknowledgePayload>(ack->payload).accepted ? 1 : 0) : -1);
             out.put(probe(*B, bid, *C, held) ? 1 : 0);
             const i64 nf = in.next();
